@@ -141,6 +141,8 @@ class MindsDBParser(Parser):
     @_('CREATE SKILL if_not_exists_or_empty identifier USING kw_parameter_list')
     def create_skill(self, p):
         params = p.kw_parameter_list
+        if 'type' not in params:
+            raise ParsingException("CREATE SKILL requires the 'type' parameter in USING")
 
         return CreateSkill(
             name=p.identifier,
@@ -181,6 +183,8 @@ class MindsDBParser(Parser):
     @_('CREATE CHATBOT identifier USING kw_parameter_list')
     def create_chat_bot(self, p):
         params = p.kw_parameter_list
+        if not isinstance(params.get('database'), str) or not params['database']:
+            raise ParsingException("CREATE CHATBOT requires the 'database' parameter in USING")
 
         database = Identifier(params.pop('database'))
         model_param = params.pop('model', None)
